@@ -31,6 +31,7 @@ package main
 import (
 	"fmt"
 	"go/ast"
+	"go/parser"
 	"go/token"
 	"sort"
 	"strconv"
@@ -98,6 +99,23 @@ type g2lTarget struct {
 	// mutParams: parameters of the Lean definition the translated text assigns to (variables of the enclosing
 	// function in a part, Go parameters passed by value): re-bound as `let mut x := x` at the top
 	mutParams []string
+	// ptrSlice: ONE slice of POINTERS to structs (exprText, e.g. "outcome.VerificationResults") whose elements the
+	// function also holds in locals and updates through them (`r := &T{..}; S = append(S, r); r.F = v`, or
+	// `for _, r := range S { if .. { p = r } }; p.F = v`). A value-semantics translation would lose such an update;
+	// with ptrSlice every local that is both stored in / loaded from S and updated in place gets a ghost
+	// `<x>_at : Int` (its position in S, -1 = not in S) and every `x.F = v` is also written through to S[x_at].
+	// Sound as long as S only grows by `S = append(S, ..)` (anything else is refused), a tracked local is appended
+	// at most once and not inside a loop, and pointers returned by calls are fresh (trusted base of the theorem).
+	ptrSlice string
+	// outArgsLast: the Lean counterparts of the calls in outArgs return (result, new value of the out argument) -
+	// the order in which a translated function hands back its captures - instead of (new value, result)
+	outArgsLast bool
+	// optMapFields: struct fields that hold maps whose VALUES are nil-able pointers (`x.F[k]` is then an Option,
+	// a missing key reading as nil); they count as mapFields too
+	optMapFields []string
+	// derefArgs: callees that dereference their pointer arguments at once: a nil-able local passed to one of them
+	// is passed as the value it points to (GoLite.deref)
+	derefArgs []string
 }
 
 type g2l struct {
@@ -117,6 +135,8 @@ type g2l struct {
 	shared     map[string]bool // sharedMaps of the target, by exprText
 	valueRoots map[string]bool // struct parameters passed by value that have a shared map field
 	named      []string        // named results of the function, in order
+	tracked    map[string]bool // ptrSlice: locals with a ghost position `<x>_at`
+	rangeS     map[string]bool // ptrSlice: value variables of the enclosing `range S` loops
 	namedTypes []ast.Expr      // their types
 }
 
@@ -153,6 +173,15 @@ func (g *g2l) isOpt(e ast.Expr) bool {
 	}
 	if se, ok := e.(*ast.SelectorExpr); ok {
 		return g.optField(se.Sel.Name)
+	}
+	if ie, ok := e.(*ast.IndexExpr); ok {
+		if se, ok := ie.X.(*ast.SelectorExpr); ok {
+			for _, f := range g.t.optMapFields {
+				if f == se.Sel.Name {
+					return true
+				}
+			}
+		}
 	}
 	return false
 }
@@ -271,7 +300,7 @@ func (g *g2l) expr(e ast.Expr) string {
 			return "(GoLite.Map.get " + g.expr(x.X) + " " + g.expr(x.Index) + ")"
 		}
 		if se, ok := x.X.(*ast.SelectorExpr); ok {
-			for _, f := range g.t.mapFields {
+			for _, f := range append(append([]string{}, g.t.mapFields...), g.t.optMapFields...) {
 				if f == se.Sel.Name {
 					return "(GoLite.Map.get " + g.expr(x.X) + " " + g.expr(x.Index) + ")"
 				}
@@ -418,9 +447,19 @@ func (g *g2l) call(x *ast.CallExpr) string {
 		fun = ie.X
 		name = exprText(fun)
 	}
+	derefs := false
+	for _, d := range g.t.derefArgs {
+		if d == name {
+			derefs = true
+		}
+	}
 	args := func() string {
 		var a []string
 		for _, e := range x.Args {
+			if id, ok := e.(*ast.Ident); ok && derefs && g.opt[id.Name] {
+				a = append(a, "(GoLite.deref "+g.expr(e)+")")
+				continue
+			}
 			a = append(a, g.expr(e))
 		}
 		return strings.Join(a, " ")
@@ -479,6 +518,11 @@ func (g *g2l) call(x *ast.CallExpr) string {
 		}
 		var a []string
 		for _, e := range x.Args[1:] {
+			if id, ok := e.(*ast.Ident); ok && g.t.ptrSlice != "" && exprText(x.Args[0]) == g.t.ptrSlice && g.opt[id.Name] {
+				// the pointer slice holds non-nil pointers (its elements are dereferenced without a check)
+				a = append(a, "(GoLite.deref "+g.expr(e)+")")
+				continue
+			}
 			a = append(a, g.expr(e))
 		}
 		return "(" + g.expr(x.Args[0]) + " ++ [" + strings.Join(a, ", ") + "])"
@@ -733,6 +777,9 @@ func (g *g2l) block(o *g2lOut, ind int, list []ast.Stmt) {
 
 func (g *g2l) assignTo(o *g2lOut, ind int, lhs ast.Expr, rhs string, define bool, n ast.Node) {
 	mustOwn := func(root *ast.Ident) {
+		if g.tracked[root.Name] {
+			return // every pointer the local may hold is accounted for by its ghost position (see ptrSlice)
+		}
 		if !g.owned[root.Name] {
 			g.fail(n, "in-place update through %s, which was not created in this function (it may alias memory other code sees)", root.Name)
 		}
@@ -811,7 +858,24 @@ func (g *g2l) assignTo(o *g2lOut, ind int, lhs ast.Expr, rhs string, define bool
 		if root, ok := l.X.(*ast.Ident); ok {
 			mustOwn(root)
 			r := g2lIdent(root.Name)
-			o.line(ind, fmt.Sprintf("%s := { %s with %s := %s }", r, r, g2lIdent(l.Sel.Name), rhs))
+			val := r
+			if g.opt[root.Name] {
+				// through a nil-able local (Go panics on nil; here the update applies to the zero value, see GoLite.deref)
+				o.line(ind, fmt.Sprintf("%s := some { (GoLite.deref %s) with %s := %s }", r, r, g2lIdent(l.Sel.Name), rhs))
+				val = "(GoLite.deref " + r + ")"
+			} else {
+				o.line(ind, fmt.Sprintf("%s := { %s with %s := %s }", r, r, g2lIdent(l.Sel.Name), rhs))
+			}
+			if g.tracked[root.Name] {
+				// the object also sits in the pointer slice: the update is seen there
+				at := g2lIdent(root.Name + "_at")
+				se, err := parser.ParseExpr(g.t.ptrSlice)
+				if err != nil {
+					g.fail(n, "ptrSlice %q: %v", g.t.ptrSlice, err)
+				}
+				o.line(ind, fmt.Sprintf("if %s ≥ 0 then", at))
+				g.assignTo(o, ind+1, se, fmt.Sprintf("(GoLite.setAt %s %s %s)", g.expr(se), at, val), false, n)
+			}
 			return
 		}
 	}
@@ -919,6 +983,12 @@ func (g *g2l) stmt(o *g2lOut, ind int, s ast.Stmt) {
 			vs := sp.(*ast.ValueSpec)
 			for i, n := range vs.Names {
 				g.declared[n.Name] = true
+				if g.tracked[n.Name] {
+					if i < len(vs.Values) {
+						g.fail(s, "tracked pointer %s declared with an initial value (use an assignment)", n.Name)
+					}
+					o.line(ind, g2lIdent(n.Name+"_at")+" := -1")
+				}
 				if i < len(vs.Values) {
 					g.owned[n.Name] = g2lCreates(vs.Values[i])
 					o.line(ind, "let mut "+g2lIdent(n.Name)+" := "+g.expr(vs.Values[i]))
@@ -966,7 +1036,11 @@ func (g *g2l) stmt(o *g2lOut, ind int, s ast.Stmt) {
 			// r := f(a, &v): the Lean f returns (new v, r)
 			c := x.Rhs[0].(*ast.CallExpr)
 			out := g.outArg(x.Rhs[0])
-			o.line(ind, "let (o', r') := "+g.call(c))
+			if g.t.outArgsLast {
+				o.line(ind, "let (r', o') := "+g.call(c))
+			} else {
+				o.line(ind, "let (o', r') := "+g.call(c))
+			}
 			g.assignTo(o, ind, out, "o'", false, s)
 			g.assignTo(o, ind, x.Lhs[0], "r'", define, s)
 		case len(x.Lhs) == len(x.Rhs):
@@ -983,14 +1057,52 @@ func (g *g2l) stmt(o *g2lOut, ind int, s ast.Stmt) {
 				if id, ok := x.Lhs[i].(*ast.Ident); ok {
 					g.owned[id.Name] = g2lCreates(x.Rhs[i])
 				}
+				if g.t.ptrSlice != "" && exprText(x.Lhs[i]) == g.t.ptrSlice {
+					// the pointer slice may only grow by `S = append(S, ..)`; a tracked local that goes in learns its position
+					c, ok := x.Rhs[i].(*ast.CallExpr)
+					if !ok || callName(c) != "append" || len(c.Args) < 1 || exprText(c.Args[0]) != g.t.ptrSlice || c.Ellipsis != token.NoPos {
+						if len(g.tracked) > 0 {
+							g.fail(s, "%s is assigned something other than append(%s, ..) while locals point into it", g.t.ptrSlice, g.t.ptrSlice)
+						}
+					} else {
+						for j, a := range c.Args[1:] {
+							if id, ok := a.(*ast.Ident); ok && g.tracked[id.Name] {
+								if g.inLoop > 0 {
+									g.fail(s, "%s is appended to %s inside a loop", id.Name, g.t.ptrSlice)
+								}
+								o.line(ind, fmt.Sprintf("%s := GoLite.len %s + %d", g2lIdent(id.Name+"_at"), g.expr(c.Args[0]), j))
+							}
+						}
+					}
+				}
 				v := g.valueFor(x.Lhs[i], x.Rhs[i])
 				if id, ok := x.Lhs[i].(*ast.Ident); ok && define && !g.declared[id.Name] && g.isOpt(x.Rhs[i]) {
 					g.opt[id.Name] = true // a variable initialised from a nil-able value is nil-able
 				}
 				g.assignTo(o, ind, x.Lhs[i], v, define, s)
+				if id, ok := x.Lhs[i].(*ast.Ident); ok && g.tracked[id.Name] {
+					// where does the pointer now held by the tracked local sit in the pointer slice?
+					at := g2lIdent(id.Name + "_at")
+					rid, isId := x.Rhs[i].(*ast.Ident)
+					_, isCall := x.Rhs[i].(*ast.CallExpr)
+					switch {
+					case isId && g.rangeS[rid.Name]:
+						o.line(ind, at+" := "+g2lIdent(rid.Name+"_at"))
+					case isNil(x.Rhs[i]) || g2lCreates(x.Rhs[i]) || isCall:
+						// a fresh object, or the result of a call (trusted to be fresh: see ptrSlice)
+						o.line(ind, at+" := -1")
+					default:
+						g.fail(s, "tracked pointer %s assigned from %s: its position in %s is unknown", id.Name, exprText(x.Rhs[i]), g.t.ptrSlice)
+					}
+				}
 			}
 		case len(x.Rhs) == 1:
 			// tuple-valued right-hand side: a call, or `v, ok := m[k]`
+			for _, l := range x.Lhs {
+				if id, ok := l.(*ast.Ident); ok && g.tracked[id.Name] {
+					g.fail(s, "tracked pointer %s assigned from a multi-value expression", id.Name)
+				}
+			}
 			var rhs string
 			if ie, ok := x.Rhs[0].(*ast.IndexExpr); ok && len(x.Lhs) == 2 {
 				rhs = "(GoLite.Map.lookup " + g.expr(ie.X) + " " + g.expr(ie.Index) + ")"
@@ -1120,6 +1232,19 @@ func (g *g2l) stmt(o *g2lOut, ind int, s ast.Stmt) {
 			g.fail(s, "return with %d values, %d expected", len(x.Results), len(g.t.retOpt))
 		}
 		var vs []string
+		if len(x.Results) == 1 && g.outArg(x.Results[0]) != nil {
+			// return f(a, p) where f assigns through p: p gets its new value, the result of f is handed on
+			c := x.Results[0].(*ast.CallExpr)
+			out := g.outArg(x.Results[0])
+			if g.t.outArgsLast {
+				o.line(ind, "let (r', o') := "+g.call(c))
+			} else {
+				o.line(ind, "let (o', r') := "+g.call(c))
+			}
+			g.assignTo(o, ind, out, "o'", false, s)
+			vs = append(vs, "r'")
+			x = &ast.ReturnStmt{Return: x.Return}
+		}
 		for i, r := range x.Results {
 			v := g.expr(r)
 			if g.t.retOpt[i] && !isNil(r) && !g.isOpt(r) && !g2lOptionCall(r) {
@@ -1242,6 +1367,12 @@ func (g *g2l) rangeStmt(o *g2lOut, ind int, x *ast.RangeStmt) {
 	if v != "_" && assignsTo(x.Body, exprText(x.Value)) {
 		rebind = v
 		v = g2lIdent(exprText(x.Value) + "_it")
+	}
+	if g.t.ptrSlice != "" && exprText(x.X) == g.t.ptrSlice && k == "_" && v != "_" {
+		// the elements of the pointer slice are handed out together with their position
+		k = g2lIdent(exprText(x.Value) + "_at")
+		g.rangeS[exprText(x.Value)] = true
+		defer delete(g.rangeS, exprText(x.Value))
 	}
 	switch {
 	case isMap:
@@ -1383,6 +1514,214 @@ func (g *g2l) switchStmt(o *g2lOut, ind int, x *ast.SwitchStmt) {
 		o.line(ind, "else")
 		g.block(o, ind+1, def.Body)
 	}
+}
+
+// ---- pointers stored in containers ----
+
+// g2lRootIdent: the identifier at the root of x.F.G[k]..., or nil
+func g2lRootIdent(e ast.Expr) *ast.Ident {
+	for {
+		switch x := e.(type) {
+		case *ast.SelectorExpr:
+			e = x.X
+		case *ast.IndexExpr:
+			e = x.X
+		case *ast.StarExpr:
+			e = x.X
+		case *ast.ParenExpr:
+			e = x.X
+		case *ast.Ident:
+			return x
+		default:
+			return nil
+		}
+	}
+}
+
+// g2lPointerPrePass guards the value-semantics translation against pointer aliasing inside the function: a local
+// that is STORED somewhere as a bare identifier (appended to a slice, assigned to another variable / field / map
+// entry, put into a composite literal, `&x`) and UPDATED IN PLACE afterwards (`x.F = v`, `x[k] = v`, delete(x, k)),
+// or anywhere in a loop both sit in, would in Go be seen through the stored copy when it is a pointer, a map or a
+// slice - the translation would lose that. Such a function is refused, except for the one pattern ptrSlice
+// describes, whose locals are returned as the set of tracked variables.
+func g2lPointerPrePass(g *g2l, body []ast.Stmt) map[string]bool {
+	type site struct {
+		pos   token.Pos
+		intoS bool // stored by `S = append(S, x)` with S the ptrSlice
+	}
+	updates := map[string][]token.Pos{}
+	stores := map[string][]site{}
+	fromS := map[string]bool{} // assigned from the value variable of a `range S`
+	S := g.t.ptrSlice
+	var loops []ast.Node
+	isCaptured := func(name string) bool {
+		for _, c := range g.t.captures {
+			if c == name {
+				return true
+			}
+		}
+		return false
+	}
+	store := func(e ast.Expr, intoS bool) {
+		if ue, ok := e.(*ast.UnaryExpr); ok && ue.Op == token.AND {
+			e = ue.X
+		}
+		if id, ok := e.(*ast.Ident); ok && id.Name != "nil" && id.Name != "_" {
+			stores[id.Name] = append(stores[id.Name], site{e.Pos(), intoS})
+		}
+	}
+	var rangeVars []string // value variables of the enclosing `range S` loops
+	var walk func(n ast.Node) bool
+	walk = func(n ast.Node) bool {
+		switch x := n.(type) {
+		case *ast.FuncLit:
+			return false
+		case *ast.RangeStmt:
+			loops = append(loops, x)
+			pushed := false
+			if S != "" && exprText(x.X) == S {
+				if id, ok := x.Value.(*ast.Ident); ok {
+					rangeVars = append(rangeVars, id.Name)
+					pushed = true
+				}
+			}
+			ast.Inspect(x.Body, walk)
+			if pushed {
+				rangeVars = rangeVars[:len(rangeVars)-1]
+			}
+			return false
+		case *ast.ForStmt:
+			loops = append(loops, x)
+		case *ast.AssignStmt:
+			for i, l := range x.Lhs {
+				if _, isId := l.(*ast.Ident); !isId {
+					if r := g2lRootIdent(l); r != nil && x.Tok != token.DEFINE {
+						updates[r.Name] = append(updates[r.Name], l.Pos())
+					}
+				}
+				if len(x.Lhs) != len(x.Rhs) {
+					continue
+				}
+				r := x.Rhs[i]
+				if lid, ok := l.(*ast.Ident); ok && lid.Name == "_" {
+					continue
+				}
+				if c, ok := r.(*ast.CallExpr); ok && callName(c) == "append" && len(c.Args) >= 1 {
+					into := S != "" && exprText(l) == S && exprText(c.Args[0]) == S
+					if c.Ellipsis == token.NoPos {
+						for _, a := range c.Args[1:] {
+							store(a, into)
+						}
+					}
+					continue
+				}
+				if rid, ok := r.(*ast.Ident); ok {
+					if lid, ok := l.(*ast.Ident); ok {
+						isRange := false
+						for _, rv := range rangeVars {
+							if rv == rid.Name {
+								isRange = true
+							}
+						}
+						if isRange {
+							fromS[lid.Name] = true
+							continue
+						}
+					}
+				}
+				store(r, false)
+			}
+		case *ast.CompositeLit:
+			for _, el := range x.Elts {
+				if kv, ok := el.(*ast.KeyValueExpr); ok {
+					store(kv.Value, false)
+				} else {
+					store(el, false)
+				}
+			}
+		case *ast.CallExpr:
+			if callName(x) == "delete" && len(x.Args) == 2 {
+				if r := g2lRootIdent(x.Args[0]); r != nil {
+					updates[r.Name] = append(updates[r.Name], x.Pos())
+				}
+			}
+		}
+		return true
+	}
+	for _, st := range body {
+		ast.Inspect(st, walk)
+	}
+	declaredIn := func(loop ast.Node, name string) bool {
+		found := false
+		ast.Inspect(loop, func(n ast.Node) bool {
+			switch x := n.(type) {
+			case *ast.AssignStmt:
+				if x.Tok == token.DEFINE {
+					for _, l := range x.Lhs {
+						if id, ok := l.(*ast.Ident); ok && id.Name == name {
+							found = true
+						}
+					}
+				}
+			case *ast.ValueSpec:
+				for _, id := range x.Names {
+					if id.Name == name {
+						found = true
+					}
+				}
+			case *ast.RangeStmt:
+				if id, ok := x.Value.(*ast.Ident); ok && id.Name == name {
+					found = true
+				}
+			}
+			return true
+		})
+		return found
+	}
+	tracked := map[string]bool{}
+	var names []string
+	for x := range updates {
+		names = append(names, x)
+	}
+	sort.Strings(names)
+	for _, x := range names {
+		if S != "" && fromS[x] {
+			tracked[x] = true
+		}
+		nS := 0
+		for _, st := range stores[x] {
+			for _, up := range updates[x] {
+				bad := up > st.pos
+				for _, lp := range loops {
+					if lp.Pos() <= st.pos && st.pos < lp.End() && lp.Pos() <= up && up < lp.End() && !declaredIn(lp, x) {
+						bad = true
+						if st.intoS {
+							g.fail(lp, "%s is appended to %s inside a loop and updated in place there", x, S)
+						}
+					}
+				}
+				if !bad {
+					continue
+				}
+				if st.intoS {
+					tracked[x] = true
+					continue
+				}
+				if isCaptured(x) {
+					continue // a capture is handed back to the caller: the target's business
+				}
+				g.fail(body[0], "%s is stored at line %d and updated in place at line %d: if it is a pointer, a map or a slice the stored copy sees the update in Go but not in a value-semantics translation",
+					x, fset.Position(st.pos).Line, fset.Position(up).Line)
+			}
+			if st.intoS {
+				nS++
+			}
+		}
+		if tracked[x] && nS > 1 {
+			g.fail(body[0], "%s is appended to %s more than once", x, S)
+		}
+	}
+	return tracked
 }
 
 // translate renders one target as a Lean definition.
@@ -1575,6 +1914,8 @@ func g2lTranslate(t *g2lTarget) string {
 		g.owned[c] = true
 		g.declared[c] = true
 	}
+	g.tracked = g2lPointerPrePass(g, body)
+	g.rangeS = map[string]bool{}
 	nres := 0
 	if ftype.Results != nil {
 		for _, r := range ftype.Results.List {
@@ -1605,6 +1946,16 @@ func g2lTranslate(t *g2lTarget) string {
 		if !g.declared[c] {
 			g.declared[c] = true
 			o.line(1, "let mut "+g2lIdent(c)+" := "+g2lIdent(c))
+		}
+	}
+	{
+		var tr []string
+		for x := range g.tracked {
+			tr = append(tr, x)
+		}
+		sort.Strings(tr)
+		for _, x := range tr {
+			o.line(1, "let mut "+g2lIdent(x+"_at")+" : Int := -1")
 		}
 	}
 	if t.closureOf == "" && t.after == "" && fd.Type.Params != nil {
